@@ -282,3 +282,36 @@ Proof.
   - repeat constructor; simpl; tauto.
   - vm_compute. discriminate.
 Qed.
+
+(* the other three defects of /repo (known findings order:concat, order:binsert, order:frontier): the
+   faithful model reproduces them, so the order clause is kept refuted for these calls *)
+Definition wM (u q k : Z) : opd := mkop u [q] [k] [] [] false.        (* measurement of q into key k *)
+Definition wC (u q k : Z) : opd := mkop u [q] [] [k] [] false.        (* operation on q controlled by key k *)
+
+Theorem concat_ragged_order_refuted :
+  exists c others c', Forall wf (moms c :: others) /\ concat_ragged c others LEFT = (c', inl 0) /\
+    conflicts (wM 2 0 0) (wC 3 1 0) = true /\
+    uid_moms (moms c) = [[1]; [2]] /\ uid_moms (moms c') = [[1; 3]; [2]].
+Proof.
+  exists (from_moments [[wX 1 0]; [wM 2 0 0]]), [[[wC 3 1 0]]]. eexists. split; [|split; [vm_compute; reflexivity|]].
+  - repeat constructor; simpl; tauto.
+  - repeat split; reflexivity.
+Qed.
+
+Theorem batch_insert_order_refuted :
+  exists c ins c', batch_insert c ins = (c', inl 0) /\
+    ins = [(0, [IOp (wX 4 1)]); (2, [IOp (wX 5 2)])] /\ conflicts (wX 3 2) (wX 5 2) = true /\
+    uid_moms (moms c) = [[1]; [2]; [3]] /\ uid_moms (moms c') = [[1; 4]; [2]; [3]; [5]].
+Proof.
+  exists (from_moments [[wX 1 0]; [wX 2 1]; [wX 3 2]]), [(0, [IOp (wX 4 1)]); (2, [IOp (wX 5 2)])]. eexists.
+  split; [vm_compute; reflexivity|]. repeat split; reflexivity.
+Qed.
+
+Theorem insert_at_frontier_order_refuted :
+  exists its c' f, insert_at_frontier empty_circuit its 0 [] = (c', inl f) /\
+    its = [IOp (wX 1 3); IOp (wM 2 3 0); IOp (wM 3 2 0)] /\ conflicts (wM 2 3 0) (wM 3 2 0) = true /\
+    uid_moms (moms c') = [[1; 3]; [2]].
+Proof.
+  exists [IOp (wX 1 3); IOp (wM 2 3 0); IOp (wM 3 2 0)]. eexists. eexists.
+  split; [vm_compute; reflexivity|]. repeat split; reflexivity.
+Qed.
